@@ -5,7 +5,7 @@ use std::collections::{BTreeMap, HashSet};
 use std::path::{Path, PathBuf};
 use std::sync::atomic::{AtomicU64, Ordering};
 use std::sync::Mutex;
-use std::time::Instant;
+use std::time::{Duration, Instant};
 
 use serde_json::{json, Value};
 
@@ -200,7 +200,24 @@ fn run_batch(engine: &dyn Engine, prop: &str, cfg: &BatchCfg, open: &[String]) -
     let start = Instant::now();
     let capped = AtomicU64::new(0);
     let total = Mutex::new(Agg::default());
+    // progress watchdog: a run that never returns (a self-deadlock in a harness) must end the check as a harness error
+    // instead of hanging it; reads a counter only, draws nothing
+    let done = AtomicU64::new(0);
+    let finished = AtomicU64::new(0);
     std::thread::scope(|s| {
+        s.spawn(|| {
+            let mut last = (0u64, Instant::now());
+            while finished.load(Ordering::SeqCst) < cfg.threads as u64 {
+                std::thread::sleep(Duration::from_millis(500));
+                let d = done.load(Ordering::SeqCst);
+                if d != last.0 {
+                    last = (d, Instant::now());
+                } else if last.1.elapsed().as_secs() >= 600 {
+                    println!("HARNESS-ERROR: no simulated run finished within 600 s of real time (run index around {}): a harness thread is stuck", next.load(Ordering::SeqCst));
+                    std::process::exit(2);
+                }
+            }
+        });
         for _ in 0..cfg.threads {
             s.spawn(|| {
                 engine.thread_init();
@@ -216,6 +233,7 @@ fn run_batch(engine: &dyn Engine, prop: &str, cfg: &BatchCfg, open: &[String]) -
                     }
                     let ch = Choices::search(rng::mix(cfg.seed, i));
                     let ctx = execute(engine, prop, ch, open);
+                    done.fetch_add(1, Ordering::SeqCst);
                     agg.runs += 1;
                     let h = trace_hash(&ctx.trace);
                     agg.hashes_all.insert(h);
@@ -245,6 +263,7 @@ fn run_batch(engine: &dyn Engine, prop: &str, cfg: &BatchCfg, open: &[String]) -
                     }
                 }
                 total.lock().unwrap().merge(agg);
+                finished.fetch_add(1, Ordering::SeqCst);
             });
         }
     });
